@@ -6,7 +6,7 @@ CONSTANTS
  Keys = {"k1", "k2"}
  Contents = {"A", "B", "C", "D"}
  MaxOps = 0
- Kinds = {"hold", "compliance", "governance", "defcompliance", "defgovernance"}
+ Kinds = {"hold", "compliance", "governance", "governance2", "defcompliance", "defgovernance"}
  BucketKinds = {"versioned", "unversioned"}
  PermInits = {{}}
  CallerSet = {"owner", "other"}
